@@ -18,3 +18,13 @@ def Denotes (d : PV) (vs : List Nat) (n t : Nat) : Prop :=
     ∀ i, i < n → (items.getD i .none).truthy = decide (i ∈ vs)
 
 end Dsw.Tie
+
+namespace Dsw.Tie
+open Dsw Dsw.Py
+
+/-- a constraint filter as the table of its answers on the `4^k` k-mers (the only strings `find_vertices` asks about). -/
+def tablePV (k : Nat) (P : List Char → Bool) : PV :=
+  .dict ((List.range (4 ^ k)).map fun i => .str (numberToDnaInt i k))
+        ((List.range (4 ^ k)).map fun i => .bool (P (numberToDnaInt i k)))
+
+end Dsw.Tie
